@@ -58,12 +58,25 @@ def c18ExamplePos : Pos :=
   | .ok p => p
   | _ => Pos.empty
 
-/-- hypothesis of `see_eq_swap`/`see_sign` satisfiable: Rd2xd5; the early exit fires (value 910 … -/
-example : see c18ExamplePos (11 ||| (35 <<< 6)) = some 910 := by
+/-- the value `see` returns for Rd2xd5 in the example position, as a function of the generated piece values: the pruned swap
+value of "queen taken by rook, retaken by pawn, retaken by rook" (with the current values the early exit fires at once: 910) -/
+def c18ExampleSee : Int := seeFold ((gainsPrunedRun (pieceValue QUEEN) [pieceValue ROOK, pieceValue PAWN, pieceValue ROOK]).drop 1)
+
+/-- the full minimax of the same exchange (with the current values: 500) -/
+def c18ExampleSpec : Int := exchangeValue (pieceValue QUEEN) (pieceValue ROOK) [pieceValue PAWN, pieceValue ROOK]
+
+/-- hypothesis of `see_eq_swap`/`see_sign` satisfiable: Rd2xd5 (stated through `c18ExampleSee`, so that the example does not pin the
+piece values; with the current values `see` gives 910, the early exit fires) … -/
+example : see c18ExamplePos (11 ||| (35 <<< 6)) = some c18ExampleSee := by
   set_option maxRecDepth 100000 in decide +kernel
 
-/-- … while the full minimax over the model's attacker sequence is 500; `#eval attackerValues c18ExamplePos 35 (seeMaxXray c18ExamplePos) 30
-(seeInit c18ExamplePos (11 ||| (35 <<< 6)))` gives `[100, 510]` (pawn, rook) — too slow for the kernel, so not an `example`) -/
+/-- … while the full minimax over the model's attacker sequence is `c18ExampleSpec` (currently 500); `#eval attackerValues c18ExamplePos 35
+(seeMaxXray c18ExamplePos) 30 (seeInit c18ExamplePos (11 ||| (35 <<< 6)))` gives `[100, 510]` (pawn, rook) — too slow for the kernel, so
+not an `example`); both have the same sign whatever the (non-negative) piece values are -/
+example : Fide.signOf c18ExampleSee = Fide.signOf c18ExampleSpec :=
+  swap_sign _ _ _ (pieceValue_nonneg _) (pieceValue_nonneg _)
+    (by intro a ha; simp only [List.mem_cons, List.not_mem_nil, or_false] at ha; rcases ha with rfl | rfl <;> exact pieceValue_nonneg _)
+-- pure arithmetic on the values of this snapshot (no reference to the generated constants)
 example : exchangeValue 910 510 [100, 510] = 500 := by decide
 
 end Clemens
